@@ -10,8 +10,6 @@ import (
 	"sync"
 )
 
-const verifMaxDepth = 80
-
 // VerifNode is a dump of one node. Self and Next are the node pointers
 // themselves (usable as map keys for identity); Mutex points at the node's
 // mutex.
@@ -28,13 +26,16 @@ type VerifNode struct {
 
 // ---- Int32 ----
 
-func verifDumpint32Node(n int32Node, depth int) *VerifNode {
+func verifDumpint32Node(n int32Node, onPath map[interface{}]bool) *VerifNode {
 	if n == nil {
 		return nil
 	}
-	if depth > verifMaxDepth {
+	if onPath[n] {
+		// a node that is its own ancestor: stop instead of looping
 		return &VerifNode{Truncated: true}
 	}
+	onPath[n] = true
+	defer delete(onPath, n)
 	switch tv := n.(type) {
 	case *int32InternalNode:
 		if tv == nil {
@@ -45,7 +46,7 @@ func verifDumpint32Node(n int32Node, depth int) *VerifNode {
 			out.Runts = append(out.Runts, r)
 		}
 		for _, c := range tv.children {
-			out.Children = append(out.Children, verifDumpint32Node(c, depth+1))
+			out.Children = append(out.Children, verifDumpint32Node(c, onPath))
 		}
 		return out
 	case *int32LeafNode:
@@ -67,7 +68,7 @@ func verifDumpint32Node(n int32Node, depth int) *VerifNode {
 
 // VerifSnapshot returns a read-only structural dump of the tree. It takes no
 // locks and must only be called while no operation is in flight.
-func (t *Int32Tree) VerifSnapshot() *VerifNode { return verifDumpint32Node(t.root, 0) }
+func (t *Int32Tree) VerifSnapshot() *VerifNode { return verifDumpint32Node(t.root, map[interface{}]bool{}) }
 
 // VerifOrder returns the order the tree was created with.
 func (t *Int32Tree) VerifOrder() int { return t.order }
@@ -83,13 +84,16 @@ func (c *Int32Cursor) VerifLeaf() (interface{}, *sync.Mutex) {
 
 // ---- Int64 ----
 
-func verifDumpint64Node(n int64Node, depth int) *VerifNode {
+func verifDumpint64Node(n int64Node, onPath map[interface{}]bool) *VerifNode {
 	if n == nil {
 		return nil
 	}
-	if depth > verifMaxDepth {
+	if onPath[n] {
+		// a node that is its own ancestor: stop instead of looping
 		return &VerifNode{Truncated: true}
 	}
+	onPath[n] = true
+	defer delete(onPath, n)
 	switch tv := n.(type) {
 	case *int64InternalNode:
 		if tv == nil {
@@ -100,7 +104,7 @@ func verifDumpint64Node(n int64Node, depth int) *VerifNode {
 			out.Runts = append(out.Runts, r)
 		}
 		for _, c := range tv.children {
-			out.Children = append(out.Children, verifDumpint64Node(c, depth+1))
+			out.Children = append(out.Children, verifDumpint64Node(c, onPath))
 		}
 		return out
 	case *int64LeafNode:
@@ -122,7 +126,7 @@ func verifDumpint64Node(n int64Node, depth int) *VerifNode {
 
 // VerifSnapshot returns a read-only structural dump of the tree. It takes no
 // locks and must only be called while no operation is in flight.
-func (t *Int64Tree) VerifSnapshot() *VerifNode { return verifDumpint64Node(t.root, 0) }
+func (t *Int64Tree) VerifSnapshot() *VerifNode { return verifDumpint64Node(t.root, map[interface{}]bool{}) }
 
 // VerifOrder returns the order the tree was created with.
 func (t *Int64Tree) VerifOrder() int { return t.order }
@@ -138,13 +142,16 @@ func (c *Int64Cursor) VerifLeaf() (interface{}, *sync.Mutex) {
 
 // ---- Uint32 ----
 
-func verifDumpuint32Node(n uint32Node, depth int) *VerifNode {
+func verifDumpuint32Node(n uint32Node, onPath map[interface{}]bool) *VerifNode {
 	if n == nil {
 		return nil
 	}
-	if depth > verifMaxDepth {
+	if onPath[n] {
+		// a node that is its own ancestor: stop instead of looping
 		return &VerifNode{Truncated: true}
 	}
+	onPath[n] = true
+	defer delete(onPath, n)
 	switch tv := n.(type) {
 	case *uint32InternalNode:
 		if tv == nil {
@@ -155,7 +162,7 @@ func verifDumpuint32Node(n uint32Node, depth int) *VerifNode {
 			out.Runts = append(out.Runts, r)
 		}
 		for _, c := range tv.children {
-			out.Children = append(out.Children, verifDumpuint32Node(c, depth+1))
+			out.Children = append(out.Children, verifDumpuint32Node(c, onPath))
 		}
 		return out
 	case *uint32LeafNode:
@@ -177,7 +184,7 @@ func verifDumpuint32Node(n uint32Node, depth int) *VerifNode {
 
 // VerifSnapshot returns a read-only structural dump of the tree. It takes no
 // locks and must only be called while no operation is in flight.
-func (t *Uint32Tree) VerifSnapshot() *VerifNode { return verifDumpuint32Node(t.root, 0) }
+func (t *Uint32Tree) VerifSnapshot() *VerifNode { return verifDumpuint32Node(t.root, map[interface{}]bool{}) }
 
 // VerifOrder returns the order the tree was created with.
 func (t *Uint32Tree) VerifOrder() int { return t.order }
@@ -193,13 +200,16 @@ func (c *Uint32Cursor) VerifLeaf() (interface{}, *sync.Mutex) {
 
 // ---- Uint64 ----
 
-func verifDumpuint64Node(n uint64Node, depth int) *VerifNode {
+func verifDumpuint64Node(n uint64Node, onPath map[interface{}]bool) *VerifNode {
 	if n == nil {
 		return nil
 	}
-	if depth > verifMaxDepth {
+	if onPath[n] {
+		// a node that is its own ancestor: stop instead of looping
 		return &VerifNode{Truncated: true}
 	}
+	onPath[n] = true
+	defer delete(onPath, n)
 	switch tv := n.(type) {
 	case *uint64InternalNode:
 		if tv == nil {
@@ -210,7 +220,7 @@ func verifDumpuint64Node(n uint64Node, depth int) *VerifNode {
 			out.Runts = append(out.Runts, r)
 		}
 		for _, c := range tv.children {
-			out.Children = append(out.Children, verifDumpuint64Node(c, depth+1))
+			out.Children = append(out.Children, verifDumpuint64Node(c, onPath))
 		}
 		return out
 	case *uint64LeafNode:
@@ -232,7 +242,7 @@ func verifDumpuint64Node(n uint64Node, depth int) *VerifNode {
 
 // VerifSnapshot returns a read-only structural dump of the tree. It takes no
 // locks and must only be called while no operation is in flight.
-func (t *Uint64Tree) VerifSnapshot() *VerifNode { return verifDumpuint64Node(t.root, 0) }
+func (t *Uint64Tree) VerifSnapshot() *VerifNode { return verifDumpuint64Node(t.root, map[interface{}]bool{}) }
 
 // VerifOrder returns the order the tree was created with.
 func (t *Uint64Tree) VerifOrder() int { return t.order }
@@ -248,13 +258,16 @@ func (c *Uint64Cursor) VerifLeaf() (interface{}, *sync.Mutex) {
 
 // ---- String ----
 
-func verifDumpstringNode(n stringNode, depth int) *VerifNode {
+func verifDumpstringNode(n stringNode, onPath map[interface{}]bool) *VerifNode {
 	if n == nil {
 		return nil
 	}
-	if depth > verifMaxDepth {
+	if onPath[n] {
+		// a node that is its own ancestor: stop instead of looping
 		return &VerifNode{Truncated: true}
 	}
+	onPath[n] = true
+	defer delete(onPath, n)
 	switch tv := n.(type) {
 	case *stringInternalNode:
 		if tv == nil {
@@ -265,7 +278,7 @@ func verifDumpstringNode(n stringNode, depth int) *VerifNode {
 			out.Runts = append(out.Runts, r)
 		}
 		for _, c := range tv.children {
-			out.Children = append(out.Children, verifDumpstringNode(c, depth+1))
+			out.Children = append(out.Children, verifDumpstringNode(c, onPath))
 		}
 		return out
 	case *stringLeafNode:
@@ -287,7 +300,7 @@ func verifDumpstringNode(n stringNode, depth int) *VerifNode {
 
 // VerifSnapshot returns a read-only structural dump of the tree. It takes no
 // locks and must only be called while no operation is in flight.
-func (t *StringTree) VerifSnapshot() *VerifNode { return verifDumpstringNode(t.root, 0) }
+func (t *StringTree) VerifSnapshot() *VerifNode { return verifDumpstringNode(t.root, map[interface{}]bool{}) }
 
 // VerifOrder returns the order the tree was created with.
 func (t *StringTree) VerifOrder() int { return t.order }
@@ -303,13 +316,16 @@ func (c *StringCursor) VerifLeaf() (interface{}, *sync.Mutex) {
 
 // ---- Comparable ----
 
-func verifDumpcomparableNode(n comparableNode, depth int) *VerifNode {
+func verifDumpcomparableNode(n comparableNode, onPath map[interface{}]bool) *VerifNode {
 	if n == nil {
 		return nil
 	}
-	if depth > verifMaxDepth {
+	if onPath[n] {
+		// a node that is its own ancestor: stop instead of looping
 		return &VerifNode{Truncated: true}
 	}
+	onPath[n] = true
+	defer delete(onPath, n)
 	switch tv := n.(type) {
 	case *comparableInternalNode:
 		if tv == nil {
@@ -320,7 +336,7 @@ func verifDumpcomparableNode(n comparableNode, depth int) *VerifNode {
 			out.Runts = append(out.Runts, r)
 		}
 		for _, c := range tv.children {
-			out.Children = append(out.Children, verifDumpcomparableNode(c, depth+1))
+			out.Children = append(out.Children, verifDumpcomparableNode(c, onPath))
 		}
 		return out
 	case *comparableLeafNode:
@@ -342,7 +358,7 @@ func verifDumpcomparableNode(n comparableNode, depth int) *VerifNode {
 
 // VerifSnapshot returns a read-only structural dump of the tree. It takes no
 // locks and must only be called while no operation is in flight.
-func (t *ComparableTree) VerifSnapshot() *VerifNode { return verifDumpcomparableNode(t.root, 0) }
+func (t *ComparableTree) VerifSnapshot() *VerifNode { return verifDumpcomparableNode(t.root, map[interface{}]bool{}) }
 
 // VerifOrder returns the order the tree was created with.
 func (t *ComparableTree) VerifOrder() int { return t.order }
